@@ -129,7 +129,27 @@ func runMint(seed int64, histories, steps int, out *Emitter) {
 				break
 			}
 			post := c.mintAbs(c.H)
-			out.Emit(map[string]interface{}{"mod": "mint", "hist": hi, "i": i, "h": c.H, "pre": pre, "params": paramsJ(params), "op": "block", "ok": true, "post": post})
+			rec := map[string]interface{}{"mod": "mint", "hist": hi, "i": i, "h": c.H, "pre": pre, "params": paramsJ(params), "op": "block", "ok": true, "post": post}
+			if qr.Intn(3) == 0 {
+				// the query server, asked inside this block: Inflation and the emission records of this and the previous height
+				w := sdk.WrapSDKContext(c.Ctx())
+				qs := map[string]interface{}{}
+				func() {
+					defer func() { recover() }()
+					if res, err := c.A.MintKeeper.Inflation(w, &minttypes.QueryInflation{}); err == nil {
+						qs["inflation"] = BigNum{res.Inflation.BigInt()}
+					}
+				}()
+				if res, err := c.A.MintKeeper.MintedTokens(w, &minttypes.QueryMintedTokens{Block: c.H}); err == nil {
+					qs["mintedAtH"] = res.Tokens
+				}
+				if res, err := c.A.MintKeeper.MintedTokens(w, &minttypes.QueryMintedTokens{Block: c.H - 1}); err == nil {
+					qs["mintedPrev"] = res.Tokens
+				}
+				rec["queries"] = qs
+				out.Count("query.mint", true)
+			}
+			out.Emit(rec)
 			out.Count("mint.block", true)
 		}
 		if withGenesis {
